@@ -178,6 +178,28 @@ def tasks(tier):
 def replay(r):
     meta = r.get("meta") or {}
     skel = meta.get("skeleton")
+    if skel is None and "_TensorViewer" in r["name"]:
+        import numpy as np
+        import pyhf
+        from pyhf.tensor.common import _TensorViewer
+        pyhf.set_backend("numpy")
+        bad = {}
+        for lname, idx in {"in-order": [[0, 1, 2], [3, 4]], "first-part-last": [[3, 4], [0, 1, 2]], "interleaved": [[0, 2], [1, 3, 4]], "one-each": [[1], [0]]}.items():
+            tv = _TensorViewer([np.asarray(i) for i in idx])
+            for lead in ((), (2,), (2, 3)):
+                parts = [100.0 * (k + 1) + np.arange(int(np.prod(lead + (len(ix),))), dtype=float).reshape(lead + (len(ix),)) for k, ix in enumerate(idx)]
+                try:
+                    st = np.asarray(tv.stitch(parts))
+                    for k, ix in enumerate(idx):
+                        if st.shape != lead + (sum(map(len, idx)),) or not np.array_equal(st[..., ix], parts[k]):
+                            bad[f"stitch:{lname},lead={lead},part{k}"] = {"got": st[..., ix].tolist() if st.ndim else None, "want": parts[k].tolist()}
+                    back = tv.split(st)
+                    for k in range(len(idx)):
+                        if not np.array_equal(np.asarray(back[k]), st[..., idx[k]]):
+                            bad[f"split:{lname},lead={lead},part{k}"] = {"got": np.asarray(back[k]).tolist(), "want": st[..., idx[k]].tolist()}
+                except Exception as e:
+                    bad[f"{lname},lead={lead}"] = f"{type(e).__name__}: {e}"
+        return {"reproduced": bool(bad), "disagreements": dict(list(bad.items())[:4])}
     if skel is None and "_constraint_combined" in r["name"]:
         # tier P obligations carry no input: the constraint classes are exercised natively through Model.logpdf on curated skeletons
         from .hf_native import native_compare
